@@ -14,9 +14,9 @@ CHECKS = {
 
 CHECKS.update({
     'C01': dict(
-        text='The grammar derivation machine (HplGrammar.tla) is explored exhaustively by TLC up to a token bound for expression, predicate and property start symbols; every complete derivation (one implementation test per terminal state) is rendered in several layouts, parsed by the packaged and by the source-built parser, and the trace spec T_C01 compares the observed tree with the tree the grammar assigns (Ast(cst)) and requires all layouts/parsers of one sentence to agree; token mutants outside the permissive bounded language must be rejected.',
+        text='The grammar derivation machine (HplGrammar.tla) is explored exhaustively by TLC up to a token bound for expression, predicate and property start symbols; every complete derivation (one implementation test per terminal state) is rendered in several layouts, parsed by the packaged and by the source-built parser, and the trace spec T_C01 compares the observed tree with the tree the grammar assigns (Ast(cst)) and requires all layouts/parsers of one sentence to agree; token mutants outside the permissive bounded language must be rejected. At the character level the lexer machine HplLex.tla (actions SkipWS, Munch = longest match, and the named deviation MunchShortOp) is explored exhaustively over every text of bounded length over four small character sets (words/keywords/numbers, operators, references/calls, string literals); TLC checks its model-level theorems (tokens cover the text, words are maximal) and every text becomes a parser test: must-accept with the tree of its greedy tokenisation, must-reject when no admitted tokenisation is a sentence even with keywords read as names, unspecified otherwise.',
         note='Bounded: token length and alphabet of the enumerated languages (listed in the evidence); trusts the grammar model (one production per Lark rule alternative, cross-validated against Lark on the accept side).',
-        technique='TLC state-graph enumeration of the grammar machine + trace validation (T_C01)', design='5/C01'),
+        technique='TLC state-graph enumeration of the grammar machine and of the lexer machine + trace validation (T_C01)', design='5/C01'),
     'C03': dict(
         text='Every AST obtained from the parser on the enumerated languages and from every rewriting function (depth <= 2 compositions) is projected field by field and TLC evaluates the well-typedness invariant HplAst!WT clause by clause on every node; the declared operator/function tables of the implementation are compared with HplTypes.',
         note='Bounded by the enumerated languages; WT uses the weak reading (compatibility) for bound-variable element types.',
@@ -26,23 +26,23 @@ CHECKS.update({
         note='Bounded by the enumerated languages; the sibling order of the two events of a pattern is accepted in either order.',
         technique='trace validation of recorded query answers against HplAst (T_C15) over TLC-generated inputs', design='5/C15'),
     'C08': dict(
-        text='TLC enumerates typed expression families (HplTypedGen: all depth-2 arithmetic/boolean terms, comparisons of depth-1 terms, every built-in function on every argument shape, sets, ranges, quantifiers); each is parsed and simplified by the real code and the trace spec T_C08 evaluates input and output with the exact-rational denotational semantics HplEval on a grid of valuations (strict input, Kleene output), checks kind/type preservation, HplAst!WT of the output, the vacuous-predicate rule, and that an exception is allowed only when the spec finds an identically-zero divisor or an undefined constant sub-term.',
+        text='TLC enumerates typed expression families (HplTypedGen: all depth-2 arithmetic/boolean terms, comparisons of depth-1 terms, every built-in function on every argument shape, sets, ranges, quantifiers); each is parsed and simplified by the real code and the trace spec T_C08 evaluates input and output with the exact-rational denotational semantics HplEval on a grid of valuations (strict input, Kleene output), checks kind/type preservation, HplAst!WT of the output, the vacuous-predicate rule, and that an exception is allowed only when the spec finds an identically-zero divisor or an undefined constant sub-term. A second pass applies simplify to copies derived through the public copy/substitution API from objects that simplify was already applied to, and to the originals again (every (input, output) pair is judged on its own).',
         note='Semantics of HplEval are a modelling decision (DESIGN section 10); float folding and transcendental functions are outside the exact model and counted as skipped; valuation grid of small values.',
         technique='trace validation against denotational semantics in TLA+ (HplEval, T_C08) over TLC-enumerated typed families', design='5/C08'),
     'C09': dict(
-        text='split_and is run on TLC-enumerated boolean families (propositional structure with aliases, quantifiers over arrays/sets/ranges incl. empty domains); T_Rewrite checks with HplEval that the Kleene conjunction of the returned parts equals the input on every valuation where the input is defined, that every part is exactly BOOL, well-typed and of indivisible shape, and that ValueError occurs only with a literal False in an input that is true on no valuation.',
+        text='split_and is run on TLC-enumerated boolean families (propositional structure with aliases, quantifiers over arrays/sets/ranges incl. empty domains); T_Rewrite checks with HplEval that the Kleene conjunction of the returned parts equals the input on every valuation where the input is defined, that every part is exactly BOOL, well-typed and of indivisible shape, and that ValueError occurs only with a literal False in an input that is true on no valuation. A second pass splits copies derived (but(), substitutions) from objects that were already split, and the originals again.',
         note='Bounded families and valuation grid; semantics per HplEval.', technique='trace validation against HplEval (T_Rewrite) over TLC-enumerated typed families', design='5/C09'),
     'C10': dict(
-        text='refactor_reference is run with present, decoy and absent aliases on TLC-enumerated boolean families; T_Rewrite checks f1 /\\ f2 == f on all valuations (HplEval), f1 free of the alias, no bound variable escaping (ExtRefs), and the unchanged-with-True result when the alias is absent.',
+        text='refactor_reference is run with present, decoy and absent aliases on TLC-enumerated boolean families; T_Rewrite checks f1 /\\ f2 == f on all valuations (HplEval), f1 free of the alias, no bound variable escaping (ExtRefs), and the unchanged-with-True result when the alias is absent. A second pass refactors copies derived (but(), substitutions) from objects that were already refactored on the same aliases, and the originals again.',
         note='Bounded families and valuation grid; "f itself" is accepted as the same object or an equal value.', technique='trace validation against HplEval/HplAst (T_Rewrite) over TLC-enumerated typed families', design='5/C10'),
     'C13': dict(
-        text='negate, join (with vacuous operands), both this/var replacements (with round trip) and aliased event construction are run on TLC-enumerated families that place a this-rooted and an alias-rooted reference in every child slot; T_Rewrite checks negation/conjunction semantics with HplEval, exact structural substitution (HplAst!Subst) and meaning under the corresponding binding, identity/annihilator laws, and that an event never lists its own alias as external.',
+        text='negate, join (with vacuous operands), both this/var replacements (with round trip) and aliased event construction are run on TLC-enumerated families that place a this-rooted and an alias-rooted reference in every child slot; T_Rewrite checks negation/conjunction semantics with HplEval, exact structural substitution (HplAst!Subst) and meaning under the corresponding binding, identity/annihilator laws, and that an event never lists its own alias as external. A second pass repeats every operation on copies derived from objects that were already used, and on the originals again.',
         note='Bounded families and valuation grid.', technique='trace validation against HplEval/HplAst (T_Rewrite) over TLC-enumerated typed families', design='5/C13'),
     'C14': dict(
         text='Every rewriting function is called on the typed families, on API-built multi-argument function calls and on enumerated properties; T_Rewrite accepts an exception only where the statement allows it (simplify: identically-zero divisor / undefined constant found by HplEval; split_and: literal False and never true; replacements on predicates: TypeError iff two references of disjoint types coincide) and checks the documented result kind.',
         note='Bounded families; one recorded finding (known_findings.json).', technique='trace validation of outcome classes and result kinds (T_Rewrite) over TLC-enumerated inputs', design='5/C14'),
     'C16': dict(
-        text='The session machine HplSession.tla is explored by TLC to enumerate every API call schedule (all of length <= 2 over 25 calls x 6 argument selectors, length 3 over the mutating calls); each schedule is replayed on freshly parsed type-open seed ASTs and after every call the deep snapshot (structure, stored types, metadata, object ids, hashes) of every handle allocated so far is recorded; the trace spec T_C16 keeps the heap as its state and checks at every step that no earlier snapshot changed, plus the but() post-conditions (same object when nothing changes; equal to a fresh construction; metadata copied, not shared; ==/hash ignore metadata).',
+        text='The session machine HplSession.tla is explored by TLC to enumerate every API call schedule (all of length <= 2 over 34 calls (queries, copies, rewrites, and accepted / rejected parses of other texts in between) x 7 argument selectors, length 3 over the mutating calls); each schedule is replayed on freshly parsed type-open seed ASTs and after every call the deep snapshot (structure, stored types, metadata, object ids, hashes) of every handle allocated so far is recorded; the trace spec T_C16 keeps the heap as its state and checks at every step that no earlier snapshot changed, plus the but() post-conditions (same object when nothing changes; equal to a fresh construction; metadata copied, not shared; ==/hash ignore metadata).',
         note='Bounded schedule length and a fixed set of 16 seed ASTs chosen for type openness; fresh construction is built with the same constructor arguments.',
         technique='TLC enumeration of call schedules (MC_Sched) replayed on real objects + stateful trace validation (T_C16)', design='5/C16'),
     'C06': dict(
@@ -50,11 +50,11 @@ CHECKS.update({
         note='Injectivity is checked within each validation shard; bounded languages.',
         technique='stateful trace validation (T_C06) of round-trip schedules over TLC-generated inputs', design='5/C06'),
     'C07': dict(
-        text='TLC enumerates every token sequence up to a length bound over the terminal alphabet (HplTokenSeq); these, random longer sequences, single/double token mutants of the enumerated valid sentences, character noise and deeply nested texts are fed to every parser entry point; T_C07 classifies each outcome (AST or a documented error; ValueError only with an unknown function name) and, with the memo of first results as its state, requires every later call with the same text - on the same long-lived parser object after thousands of other calls, on a second object in another order, on fresh objects in all orders of small sets - to give the same outcome and the same AST.',
+        text='TLC enumerates every token sequence up to a length bound over the terminal alphabet (HplTokenSeq); these, random longer sequences, single/double token mutants of the enumerated valid sentences, character noise and deeply nested texts are fed to every parser entry point; T_C07 classifies each outcome (AST or a documented error; ValueError only with an unknown function name) and, with the memo of first results as its state, requires every later call with the same text - on the same long-lived parser object after thousands of other calls, on a second object in another order, on fresh objects in all orders of small sets, on parser objects made with the documented debug switch, through the module-level parse_* helpers - to give the same outcome and the same AST.',
         note='Arbitrary Unicode cannot be enumerated by TLC; it is sampled and only classified. Bounded lengths.',
         technique='TLC enumeration of token sequences + stateful trace validation (T_C07)', design='5/C07'),
     'C02': dict(
-        text='TLC enumerates the shape space of HplShapes (every scope kind x pattern kind x alias/reference placement over aliases {none,A,B} for all-simple events - 5880 shapes, exhaustive - plus references inside quantifier bodies and domains, quantifier-hygiene faults, disjunctions with sibling references, shared aliases and duplicate channels); every shape is brought into being three ways (parsed, built through the constructor API from the tree the grammar assigns, reached by but() from a valid property) and T_C02 compares accept/reject and the error class with HplScoping!Accept.',
+        text='TLC enumerates the shape space of HplShapes (every scope kind x pattern kind x alias/reference placement over aliases {none,A,B} for all-simple events - 5880 shapes, exhaustive - plus references inside quantifier bodies and domains, quantifier-hygiene faults, disjunctions with sibling references, shared aliases and duplicate channels); every shape is brought into being four ways (parsed, built through the constructor API from the tree the grammar assigns, reached by but() from a valid property, built from predicates that were derived by the substitution API from predicates already used inside another valid property) and T_C02 compares accept/reject and the error class with HplScoping!Accept.',
         note='Two shape classes are deliberately not judged (same alias on two alternatives of one disjunction; terminator alias equal to a pattern alias) and are counted in the evidence.',
         technique='TLC enumeration of property shapes (MC_Shapes) + trace validation against HplScoping (T_C02)', design='5/C02'),
     'C11': dict(
@@ -66,8 +66,8 @@ CHECKS.update({
         note='Trace semantics of HplMonitor are a modelling decision (strong finite-trace reading; docs are informal); bounds in the evidence.',
         technique='TLC bounded model checking of HplMonitor with the implementation output as a constant (MC_Monitor)', design='5/C12'),
     'C04': dict(
-        text='TLC enumerates a type-directed family of predicates that are well-typed under a message schema (numbers, booleans, strings, arrays, nested messages, arrays of messages, constants; references to the current message, an aliased earlier message and quantified variables, inside indices, sets, ranges, functions and quantifiers); each is parsed inside a property and T_C04 requires acceptance, re-derives with HplTyping that every reference resolves and that the inferred type set contains the schema type, requires type_check_references to succeed and HplAst!WT to hold.',
-        note='One schema family (the message type M of the driver); a generated predicate that HplTyping does not find well-typed is reported as a machinery failure, never as a violation. One recorded finding.',
+        text='TLC enumerates a type-directed family of predicates that are well-typed under a message schema (numbers, booleans, strings, arrays, nested messages, arrays of messages, constants; references to the current message, an aliased earlier message and quantified variables, inside indices, sets, ranges, functions and quantifiers); each is parsed inside a property and T_C04 requires acceptance, re-derives with HplTyping that every reference resolves and that the inferred type set contains the schema type, requires type_check_references to succeed - also on a freshly parsed twin and on the same object after each was checked against another schema in between - and HplAst!WT to hold.',
+        note='One schema family (the message type M of the driver); a generated predicate that HplTyping does not find well-typed is reported as a machinery failure, never as a violation.',
         technique='TLC enumeration of a typed family (MC_Shapes) + trace validation against HplTyping (T_C04)', design='5/C04'),
     'C05': dict(
         text='TLC enumerates terms with exactly one definite type clash (wrong-typed literal or operator/function result in every argument position of every operator and function, range bounds, set elements, quantifier domain and condition, index; one reference required at two disjoint types; non-boolean predicate root); each is parsed as condition, predicate, inside a property and nested in a conjunction, and T_C05 requires TypeError every time after re-deriving from the signature tables alone (HplStatic!DefiniteClash) that the generated term is a definite clash.',
